@@ -289,6 +289,9 @@ class Interp:
                 return self.call(type(a0).__bytes__, (a0,))
             if a0 is not None and is_repo_func(getattr(type(a0), '__iter__', None)):
                 return SB.from_items(list(self.iter(a0)))
+        if f is builtins.str and len(args) == 1 and not isinstance(a0, (str, bytes, int, float)):
+            m = getattr(type(a0), '__str__', None)
+            if m in self.contracts or is_repo_func(m): return self.call(m, (a0,))
         if f is builtins.int and isinstance(a0, SymInt) and len(args) == 1: return a0
         if f is builtins.bool and isinstance(a0, (SymInt, SymBool)): return self.truth(a0)
         if f is builtins.int and a0 is not None and not isinstance(a0, (int, str, bytes, float)) \
@@ -659,10 +662,14 @@ class Interp:
         m2 = getattr(tb, rname, None)
         if (m2 in self.contracts or is_repo_func(m2)) and not (m in self.contracts or is_repo_func(m)):
             return self.call(m2, (b, a))
+        if op in (ast.LShift, ast.RShift) and isinstance(b, SymInt) and b.lo < 0 and isinstance(a, (int, SymInt)):
+            if self.truth(b < 0): raise ValueError('negative shift count')
+            from .sym import refine_nonneg
+            b = refine_nonneg(b)
         if op is ast.Mod and isinstance(a, (str, bytes)) and has_sym(b):
             raise LeakError('symbolic value formatted into a string')
-        if op is ast.Mult and isinstance(a, (bytes, list, tuple, str)) and isinstance(b, SymInt): b = self.concretize(b, 'repetition count')
-        if op is ast.Mult and isinstance(b, (bytes, list, tuple, str)) and isinstance(a, SymInt): a = self.concretize(a, 'repetition count')
+        if op is ast.Mult and isinstance(a, (bytes, list, tuple, str, SBytes)) and isinstance(b, SymInt): b = self.concretize(b, 'repetition count')
+        if op is ast.Mult and isinstance(b, (bytes, list, tuple, str, SBytes)) and isinstance(a, SymInt): a = self.concretize(a, 'repetition count')
         return f(a, b)
 
     def compare(self, op, a, b):
